@@ -110,6 +110,19 @@ def worker(job):
             problems.append(("value", "== returned %r although every compared pair was reported equal" % (res,), None))
         if not problems and seen != set(types):
             problems.append(("pairing", "== skipped the blocks of types %s" % sorted(set(types) - seen), None))
+        # the test is the conjunction over the types: if the blocks of one type differ (the comparison of exactly
+        # that pair is answered False, every other one True) the result must be False
+        if not problems:
+            for t0 in types:
+                xa, yb = a[t0], b[t0]
+                w.allclose_false_for = lambda x, y: (same_elems(x, xa) and same_elems(y, yb)) or (same_elems(x, yb) and same_elems(y, xa))
+                try:
+                    r2 = attempt(lambda: a == b)
+                finally:
+                    w.allclose_false_for = None
+                if r2 is not False:
+                    problems.append(("value", "== returned %r although the blocks of type %s differ" % (r2, tname(t0)), None))
+                    break
         return dict(cfg=cfg, problems=problems)
     if not is_multi(res):
         problems.append(("type", "result is %r, not a MultiImage" % (type(res).__name__,), None))
